@@ -1,0 +1,108 @@
+//go:build verif
+
+// Contracts for the verification machinery in /verif (comment-only; excluded from normal builds).
+// Property C23. Mode int: Go ints are mathematical integers and every +,-,* carries a no-overflow obligation,
+// so the two semantics coincide on everything proved.
+
+package token
+
+//@ spec sorted_ints(a []int) bool := forall p int, q int :: 0 <= p && p < q && q < len(a) ==> a[p] <= a[q]
+
+//@ func searchInts
+//@   mode int
+//@   requires sorted_ints(a)
+//@   loop 0 invariant 0 <= i && i <= j && j <= len(a)
+//@   loop 0 invariant forall k int :: 0 <= k && k < i ==> a[k] <= x
+//@   loop 0 invariant forall k int :: j <= k && k < len(a) ==> a[k] > x
+//@   ensures[range] -1 <= result && result < len(a)
+//@   ensures[le]    forall k int :: 0 <= k && k <= result ==> a[k] <= x
+//@   ensures[gt]    forall k int :: result < k && k < len(a) ==> a[k] > x
+//@   safe
+//@   property C23
+
+// ---- the line table
+// is_start(c, s): offset s begins a line of content c. lines_ok(t, c, n): t is the table of line starts of
+// the first n bytes of c: strictly increasing, begins with 0, every entry is a line start below n, and no
+// newline lies strictly inside a line (between an entry and the byte before the next entry; after the last
+// entry up to n-1). Hence entry i is the offset following the i-th newline, i.e. line i+1 starts there.
+//@ spec is_start(c []byte, s int) bool := s == 0 || c[s-1] == '\n'
+//@ spec lines_ok(t []int, c []byte, n int) bool :=
+//@      ((len(t) == 0) == (n == 0)) && (len(t) > 0 ==> t[0] == 0) &&
+//@      (forall i int :: 0 <= i && i < len(t) ==> 0 <= t[i] && t[i] < n && is_start(c, t[i])) &&
+//@      (forall i int :: 0 <= i && i+1 < len(t) ==> t[i] < t[i+1]) &&
+//@      (forall i int, j int :: 0 <= i && i+1 < len(t) && t[i] <= j && j < t[i+1]-1 ==> c[j] != '\n') &&
+//@      (forall j int :: len(t) > 0 && t[len(t)-1] <= j && j < n-1 ==> c[j] != '\n')
+
+//@ func (*File).SetLinesForContent
+//@   mode int
+//@   requires f != nil && len(content) <= f.capacity
+//@   loop 0 invariant -1 <= rangeindex && rangeindex < len(content)
+//@   loop 0 invariant (line == rangeindex+1 && is_start(content, rangeindex+1)) || (line == -1 && !is_start(content, rangeindex+1))
+//@   loop 0 invariant isfresh(lines)
+//@   loop 0 invariant visible_unchanged(lines)
+//@   loop 0 invariant (len(lines) == 0) == (rangeindex == -1)
+//@   loop 0 invariant len(lines) > 0 ==> lines[0] == 0
+//@   loop 0 invariant forall i int :: 0 <= i && i < len(lines) ==> 0 <= lines[i] && lines[i] <= rangeindex && is_start(content, lines[i])
+//@   loop 0 invariant forall i int :: 0 <= i && i+1 < len(lines) ==> lines[i] < lines[i+1]
+//@   loop 0 invariant forall i int, j int :: 0 <= i && i+1 < len(lines) && lines[i] <= j && j < lines[i+1]-1 ==> content[j] != '\n'
+//@   loop 0 invariant forall j int :: len(lines) > 0 && lines[len(lines)-1] <= j && j < rangeindex ==> content[j] != '\n'
+//@   ensures[size]  f.size == len(content)
+//@   ensures[table] lines_ok(f.lines, content, len(content))
+//@   modifies f.size, f.lines
+//@   safe
+//@   property C23
+
+// ---- representation invariant of a File's line table (what AddLine / SetLines / SetLinesForContent keep)
+//@ spec table_rep(t []int, n int) bool :=
+//@      (forall i int :: 0 <= i && i < len(t) ==> 0 <= t[i] && t[i] < n) &&
+//@      (forall i int, j int :: 0 <= i && i < j && j < len(t) ==> t[i] < t[j])
+
+//@ func (*File).AddLine
+//@   mode int
+//@   requires f != nil && table_rep(f.lines, f.size) && offset >= 0
+//@   ensures[rep]  table_rep(f.lines, f.size)
+//@   ensures[keep] forall i int :: 0 <= i && i < old(len(f.lines)) ==> f.lines[i] == old(f.lines[i])
+//@   ensures[add]  len(f.lines) == old(len(f.lines)) || (len(f.lines) == old(len(f.lines)) + 1 && f.lines[len(f.lines)-1] == offset)
+//@   noframe
+//@   safe
+//@   property C23
+
+//@ func (*File).SetLines
+//@   mode int
+//@   requires f != nil
+//@   loop 0 invariant -1 <= rangeindex && rangeindex < len(lines)
+//@   loop 0 invariant forall i int :: 0 <= i && i <= rangeindex ==> lines[i] < f.size && (i > 0 ==> lines[i-1] < lines[i])
+//@   ensures[ok]   result ==> f.lines == lines && (forall i int :: 0 <= i && i < len(lines) ==> lines[i] < f.size && (i > 0 ==> lines[i-1] < lines[i]))
+//@   ensures[fail] !result ==> f.lines == old(f.lines)
+//@   modifies f.lines
+//@   safe
+//@   property C23
+
+// ---- offset -> (line, column): line is 1 + the index of the last line start <= offset, column is 1 + the distance
+// from that line start. With lines_ok this is "1 + number of newlines before offset" and "1 + bytes since the
+// last newline" (each table entry after the first is the byte after one newline and no other newline exists).
+//@ func (*File).unpack
+//@   mode int
+//@   requires f != nil && !adjusted && len(f.lines) > 0 && f.lines[0] == 0 && offset >= 0 && offset <= f.size && f.size < (1 << 62)
+//@   requires forall i int, j int :: 0 <= i && i < j && j < len(f.lines) ==> f.lines[i] < f.lines[j]
+//@   ensures[line]   1 <= line && line <= len(f.lines) && f.lines[line-1] <= offset && (line < len(f.lines) ==> offset < f.lines[line])
+//@   ensures[column] column == offset - f.lines[line-1] + 1
+//@   ensures[name]   filename == f.name
+//@   noframe
+//@   safe
+//@   property C23
+
+// ---- serialization: what Read installs. The decoded value is whatever the codec wrote into the
+// serializedFileSet (callback decode may write through its pointer argument); the JSON codec itself is assumed.
+//@ func (*FileSet).Read
+//@   mode int
+//@   requires s != nil
+//@   callback decode havoc
+//@   loop 0 invariant 0 <= i && i <= len(ss.Files) && len(files) == len(ss.Files) && isfresh(files)
+//@   loop 0 invariant forall j int :: 0 <= j && j < i ==> files[j] != nil && allocated(files[j]) && files[j].set == s && files[j].base == ss.Files[j].Base && files[j].size == ss.Files[j].Size && files[j].lines == ss.Files[j].Lines
+//@   ensures[cache]   result == nil ==> s.last == nil
+//@   ensures[files]   result == nil ==> (forall j int :: 0 <= j && j < len(s.files) ==> s.files[j] != nil && s.files[j].set == s)
+//@   ensures[onerror] result != nil ==> s.files == old(s.files) && s.last == old(s.last) && s.base == old(s.base)
+//@   noframe
+//@   safe
+//@   property C23
